@@ -21,6 +21,7 @@
         Sleep            | check_cancel                    | sleep: get_co_para
         fast Park        | check_cancel                    | park: get_co_para
         Yield            | check_cancel                    | –  (nobody sets para for it except the shortcut)
+        io (socket ops)  | nothing (clear_cancel_bit)      | co_io_result: get_co_para → io::Error (TimedOut / Canceled)
         EventSender      | NOTHING ("ignore the cancel")   | –  ⇒ the shortcut's Canceled survives: defect F8
                          |                                 |    (fixed: `send` does not use the shortcut)
 
@@ -48,16 +49,19 @@ notation "Val" => Nat
 structure Cfg where
   f8 : Bool       -- EventSender::send does not take the user-space cancel shortcut
   clr : Bool      -- check_cancel clears `para` before it looks at thread::panicking()
+  early : Bool    -- (seeded change C15_b) park_timeout returns Ok as soon as it finds the unpark token, without get_co_para
   deriving DecidableEq, Repr
-def fixed : Cfg := ⟨true, true⟩
-def pinned : Cfg := ⟨false, true⟩
+def fixed : Cfg := ⟨true, true, false⟩
+def pinned : Cfg := ⟨false, true, false⟩
 /-- the seeded change C15_a: `get_co_para()` only inside `if !thread::panicking()` -/
-def seededC15a : Cfg := ⟨true, false⟩
+def seededC15a : Cfg := ⟨true, false, false⟩
+/-- the seeded change C15_b: `park_timeout` skips `get_co_para()` when `check_park()` found the token -/
+def seededC15b : Cfg := ⟨true, true, true⟩
 
 inductive Para | canceled | timedOut
   deriving DecidableEq, Repr
 
-inductive Api | park (ignoreCancel : Bool) | sleep | fastPark | yieldNow | send
+inductive Api | park (ignoreCancel : Bool) | sleep | fastPark | yieldNow | send | io
   deriving DecidableEq, Repr
 
 inductive Wake | unpark | timer | cancel
@@ -94,10 +98,10 @@ structure Sh where
   ownT : Val → Option (Nat × Key)
 
 @[grind] def hasTimer : Api → Bool
-  | .park _ | .sleep => true
+  | .park _ | .sleep | .io => true
   | _ => false
 @[grind] def cancelRegistered : Api → Bool
-  | .park _ | .sleep | .fastPark => true
+  | .park _ | .sleep | .fastPark | .io => true
   | _ => false
 /-- `yield_back` of this EventSource calls `check_cancel` -/
 @[grind] def checksCancel : Api → Bool
@@ -146,12 +150,12 @@ def tstep (cfg : Cfg) (sh : Sh) (c : Nat) (pc : Pc) (e : Env) : Option (Sh × Pc
   | .shortcut false a =>
     match a with
     | .send => some (sh, .run)                   -- F8: `yield_back` is a no-op, the bottom half runs, para stays
-    | .park true => some (sh, .post false a)     -- `ignore_cancel`: park_timeout's own get_co_para consumes it
+    | .park true | .io => some (sh, .post false a)     -- no check in yield_back: the API's own get_co_para consumes it
     | _ => some ({ sh with para := upd sh.para (sh.gen c) none }, .unwinding)   -- check_cancel: get_co_para, Cancel panic
   | .shortcut true a =>
     -- while unwinding: check_cancel clears (the code's rule) but does not panic again
     match a with
-    | .send | .park true => some (sh, .post true a)
+    | .send | .park true | .io => some (sh, .post true a)
     | _ => some (if cfg.clr then { sh with para := upd sh.para (sh.gen c) none } else sh, .post true a)
   | .parked u a =>
     match e with
@@ -169,7 +173,12 @@ def tstep (cfg : Cfg) (sh : Sh) (c : Nat) (pc : Pc) (e : Env) : Option (Sh × Pc
   | .post u a =>
     let back : Pc := if u then .unwinding else .run
     match a with
-    | .park _ => some ({ sh with lastPark := upd sh.lastPark c (some (sh.para (sh.gen c))), para := upd sh.para (sh.gen c) none }, back)
+    | .park _ =>
+      -- `e = wake unpark` here: an unpark landed after the timer / canceller had already taken the coroutine (the token
+      -- is there when the resumed coroutine runs `check_park`). The code consumes the para all the same.
+      if cfg.early && e == .wake .unpark then some ({ sh with lastPark := upd sh.lastPark c (some none) }, back)
+      else some ({ sh with lastPark := upd sh.lastPark c (some (sh.para (sh.gen c))), para := upd sh.para (sh.gen c) none }, back)
+    | .io => some ({ sh with lastPark := upd sh.lastPark c (some (sh.para (sh.gen c))), para := upd sh.para (sh.gen c) none }, back)
     | .sleep | .fastPark => some ({ sh with para := upd sh.para (sh.gen c) none }, back)
     | .yieldNow | .send => some (sh, back)
   | .unwinding =>
